@@ -11,3 +11,7 @@ import ClipperVerif.Props.Bridges.CleanUp
 import ClipperVerif.Props.Bridges.Flags
 import ClipperVerif.Props.Bridges.RectClip
 import ClipperVerif.Props.Bridges.Offset
+import ClipperVerif.Props.Bridges.Joins
+import ClipperVerif.Props.Bridges.Horz
+import ClipperVerif.Props.Bridges.Rings
+import ClipperVerif.Props.Bridges.Trim
